@@ -92,6 +92,16 @@ def apply(cfg):
     if cfg.get("shpq", "std") == "equal":
         net.shunt.at[0, "p_mw"] = 0.4
         net.shunt.at[0, "q_mvar"] = 0.4
+    elif cfg.get("shpq") == "table":
+        import pandas as pd
+        # total p / q of the bank at each step (not proportional to the step); the shunt runs at step 2
+        net["shunt_characteristic_table"] = pd.DataFrame({"id_characteristic": [0, 0, 0], "step": [1, 2, 3],
+                                                          "q_mvar": [-0.3, -0.7, -0.9], "p_mw": [0.01, 0.03, 0.04]})
+        net.shunt["id_characteristic_table"] = net.shunt["id_characteristic_table"].astype("Int64") if "id_characteristic_table" in net.shunt else pd.array([pd.NA], dtype="Int64")
+        net.shunt.at[0, "id_characteristic_table"] = 0
+        net.shunt["step_dependency_table"] = True
+        net.shunt.at[0, "step"] = 2
+        net.shunt.at[0, "max_step"] = 3
     net.shunt.at[0, "vn_kv"] = 20.0 if cfg["shvn"] == "bus" else 19.0
     lim = 0.3 if cfg["qtight"] else 50.0
     net.gen["min_q_mvar"] = -lim
@@ -111,7 +121,8 @@ def solve(net, cfg):
         else:
             pp.runpp(net, voltage_depend_loads=bool(cfg["vdl"]), trafo_model=cfg["tmodel"], enforce_q_lims=bool(cfg["qlims"]),
                      distributed_slack=bool(cfg["dslack"]), calculate_voltage_angles=True, tolerance_mva=1e-10, max_iteration=60,
-                     init="dc", **({} if cfg.get("ls2g", True) else {"lightsim2grid": False}))
+                     init="dc", **({} if cfg.get("ls2g", True) else {"lightsim2grid": False}),
+                     **({} if cfg.get("alg", "nr") == "nr" else {"algorithm": cfg["alg"]}))
         return bool(net.converged), ""
     except Exception as e:  # noqa
         return False, type(e).__name__
@@ -161,7 +172,10 @@ def observe(cfg):
     for n in ("ld0", "ld1", "ld2", "ld3"):
         i = ROW[n][1]
         inp[n].update({"cz": int(net.load.at[i, "const_z_p_percent"]), "ci": int(net.load.at[i, "const_i_p_percent"])})
-    inp["sh0"] = {"p": fx(net.shunt.at[0, "p_mw"]), "q": fx(net.shunt.at[0, "q_mvar"]), "step": int(net.shunt.at[0, "step"]),
+    sh_p, sh_q = float(net.shunt.at[0, "p_mw"]), float(net.shunt.at[0, "q_mvar"])
+    if cfg.get("shpq") == "table":      # the table holds the bank's total at the step: per-step value = total / step
+        sh_p, sh_q = 0.03 / 2, -0.7 / 2
+    inp["sh0"] = {"p": fx(sh_p), "q": fx(sh_q), "step": int(net.shunt.at[0, "step"]),
                   "vn": int(round(net.shunt.at[0, "vn_kv"] * 10)), "vnbus": int(round(net.bus.at[1, "vn_kv"] * 10))}
     inp["xw0"] = {"p": fx(net.xward.at[0, "ps_mw"]), "w": int(net.xward.at[0, "slack_weight"])}
     return out
